@@ -74,6 +74,7 @@ func runC14(c *Ctx, r *Report) {
 
 	// ---- R2 ----
 	var writes []*ssa.Call
+	innerOf := map[*ssa.Call]*ssa.Call{}
 	eachInstr(sg, func(in ssa.Instruction) {
 		call, ok := in.(*ssa.Call)
 		if !ok {
@@ -82,6 +83,12 @@ func runC14(c *Ctx, r *Report) {
 		name := stdName(call)
 		if name == "fmt.Fprintf" || name == "fmt.Fprint" || name == "fmt.Fprintln" || (call.Common().IsInvoke() && call.Common().Method.Name() == "Write") || name == "io.WriteString" {
 			writes = append(writes, call)
+			return
+		}
+		// a module helper that is handed the writer and does the one Fprintf
+		if inner := helperFprintf(call); inner != nil {
+			writes = append(writes, call)
+			innerOf[call] = inner
 		}
 	})
 	if len(writes) < 2 {
@@ -89,6 +96,12 @@ func runC14(c *Ctx, r *Report) {
 	}
 	for i, w := range writes {
 		desc := "write #" + string(rune('1'+i)) + " of SaveGlobals"
+		if inner := innerOf[w]; inner != nil {
+			f, ok := constString(inner.Common().Args[1])
+			good := ok && strings.HasSuffix(f, "\n") && strings.Count(f, "\n") == 1 && !strings.Contains(f, "\r")
+			r.Check(good, "C14.R2", sname, desc+" uses a constant one-line format", c.Pos(w.Pos()), "the format used by the helper does not end in exactly one newline (or contains another): auto-load reads the file one line at a time")
+			continue
+		}
 		if stdName(w) != "fmt.Fprintf" {
 			r.Fail("C14.R2", sname, desc+" uses a constant one-line format", c.Pos(w.Pos()), "a binding is written with something other than fmt.Fprintf and a constant format: the one-binding-per-line shape cannot be established")
 			continue
@@ -503,4 +516,34 @@ func (c *Ctx) checkLiteralValueSources(r *Report, rule string) {
 		r.Undecided("%s: only %d stores to IntegerLiteral.Val / FloatLiteral.Val found in package parser", rule, n)
 	}
 	r.Floor(rule, 2)
+}
+
+// helperFprintf: call hands an io.Writer-like argument to a module function whose only write is one
+// fmt.Fprintf on that parameter; returns that inner call.
+func helperFprintf(call *ssa.Call) *ssa.Call {
+	callee := call.Common().StaticCallee()
+	if callee == nil || !isModuleSSA(callee) || callee.Blocks == nil {
+		return nil
+	}
+	var inner *ssa.Call
+	n := 0
+	eachInstr(callee, func(in ssa.Instruction) {
+		c2, ok := in.(*ssa.Call)
+		if !ok {
+			return
+		}
+		switch stdName(c2) {
+		case "fmt.Fprintf":
+			if p, ok := c2.Common().Args[0].(*ssa.Parameter); ok && p.Parent() == callee {
+				inner = c2
+				n++
+			}
+		case "fmt.Fprint", "fmt.Fprintln", "io.WriteString":
+			n += 2
+		}
+	})
+	if n != 1 {
+		return nil
+	}
+	return inner
 }
